@@ -13,7 +13,7 @@ PROP = "C08"
 def gen(rng, tier, boost):
     cases = []
     dist = {"tree_no_reals": 0, "tree_with_reals": 0}
-    n = (3000 if tier == "quick" else 60000) * boost
+    n = (30000 if tier == "quick" else 500000) * boost
     for k in range(n):
         w = rng.randrange(4)
         c = jc.s_case(rng, w, reals=(k % 4 == 0))
